@@ -99,6 +99,60 @@ func (f structFamily) nested() []func() ([]byte, string) {
 	return out
 }
 
+// truncated: every record with its body cut by 1..24 bytes and by half, the record length fixed up
+// (the framing stays intact, the parser of that record kind sees a body that ends early: inside a
+// fixed field, inside a length-prefixed string, between array entries) - top-level records, and the
+// records inside every chunk (chunk re-encoded, offsets fixed up).
+func (f structFamily) truncated() []func() ([]byte, string) {
+	var out []func() ([]byte, string)
+	s := f.seed
+	recs := s.dec.Recs
+	cuts := func(n int) []int {
+		var ks []int
+		for k := 1; k <= 24 && k <= n; k++ {
+			ks = append(ks, k)
+		}
+		if n/2 > 24 {
+			ks = append(ks, n/2)
+		}
+		return ks
+	}
+	for i := range recs {
+		r := &recs[i]
+		for _, k := range cuts(int(r.Len)) {
+			k := k
+			out = append(out, func() ([]byte, string) {
+				body := s.bytes[r.Off+9 : r.End()-k]
+				b := append([]byte(nil), s.bytes[:r.Off]...)
+				b = append(b, r.Op)
+				b = binary.LittleEndian.AppendUint64(b, uint64(len(body)))
+				b = append(b, body...)
+				return append(b, s.bytes[r.End():]...), fmt.Sprintf("%s record at %d: last %d bytes of its body removed, record length fixed up", ref.OpName(r.Op), r.Off, k)
+			})
+		}
+		if r.Op != ref.OpChunk || r.Chunk.Uncompressed == nil {
+			continue
+		}
+		in := r.Chunk.Uncompressed
+		for j := range r.Inner {
+			q := &r.Inner[j]
+			for _, k := range cuts(int(q.Len)) {
+				k := k
+				out = append(out, func() ([]byte, string) {
+					body := in[q.Off+9 : q.End()-k]
+					inner := append([]byte(nil), in[:q.Off]...)
+					inner = append(inner, q.Op)
+					inner = binary.LittleEndian.AppendUint64(inner, uint64(len(body)))
+					inner = append(inner, body...)
+					inner = append(inner, in[q.End():]...)
+					return rechunk(s, r, inner), fmt.Sprintf("%s record at inner offset %d of the chunk at %d: last %d bytes of its body removed, lengths fixed up", ref.OpName(q.Op), q.Off, r.Off, k)
+				})
+			}
+		}
+	}
+	return out
+}
+
 // spliced: for every ordered pair of records (i, j) record i is replaced by the first half of i
 // followed by the second half of j (framing of i kept, so the body is a chimera), and by the second
 // half of j alone re-framed under i's opcode.
